@@ -49,6 +49,7 @@ REQUIRED = {
     "commutation_checked": 5,
     "cylinder_conversions": 20,
     "backend_product_routes_checked": 200,
+    "complex_conversions_checked": 40,
 }
 EPS = 2.220446049250313e-16
 
@@ -303,6 +304,9 @@ def run_order_shard(spec, res: ShardResult, rng):
             fields["r*e_phi"] = np.stack([zeros, r_c])
         else:
             fields["r*e_r"] = np.stack([r_c, zeros, zeros])
+        # complex-valued vector field: the conversion is a real rotation and must act on real and
+        # imaginary part alike
+        fields["random complex"] = fields["random"] * (0.6 + 0.8j) + 1j * rng.uniform(0.5, 2.0, size=(dim, *grid.shape))
         for kind, data in fields.items():
             f = pde.VectorField(grid, data)
             case = {**case0, "field": kind, "target": {"bounds": [list(b) for b in tgt.axes_bounds], "shape": list(tgt.shape)}}
@@ -313,7 +317,10 @@ def run_order_shard(spec, res: ShardResult, rng):
                 continue
             # own interpolation of each component at (r[, z]) and own rotation
             pts = np.stack(gcoords, -1).reshape(-1, len(gcoords))
-            comps = np.array([[model_interpolate(info, data[k], p)[0] for p in pts] for k in range(dim)]).reshape((dim, *tgt.shape))
+            comps = np.array([[model_interpolate(info, data[k].real, p)[0] for p in pts] for k in range(dim)]).reshape((dim, *tgt.shape))
+            if np.iscomplexobj(data):
+                res.count("complex_conversions_checked")
+                comps = comps + 1j * np.array([[model_interpolate(info, data[k].imag, p)[0] for p in pts] for k in range(dim)]).reshape((dim, *tgt.shape))
             want = sum(comps[k][..., None] * basis[k] for k in range(dim))
             want = np.moveaxis(want, -1, 0)
             tol = 1e-11 * (np.abs(data).max() + 1)
@@ -321,7 +328,7 @@ def run_order_shard(spec, res: ShardResult, rng):
             if cls == "CylindricalSymGrid":
                 res.count("cylinder_conversions")
             ok = conv.shape == want.shape and np.abs(conv - want).max() <= tol
-            if kind != "random":
+            if not kind.startswith("random"):
                 res.count("special_fields_checked")
                 xs = np.moveaxis(x, -1, 0)
                 geo = {"uniform axial": np.stack([0 * xs[0], 0 * xs[0], 0 * xs[0] + 1]) if dim == 3 else None,
@@ -344,7 +351,7 @@ def run_order_shard(spec, res: ShardResult, rng):
                     "vector field converted to a Cartesian grid is not the same geometric vector", case, mechanism=mech,
                     have=conv.reshape(dim, -1)[:, 0], want=want.reshape(dim, -1)[:, 0],
                 )
-            distinct = kind == "random"
+            distinct = kind.startswith("random")
             res.case((cls, hole, kind, "convert", tuple(gen.grid_shape(gspec)), tuple(tgt.shape)), nontrivial=distinct)
         if gi < 1:
             res.sample({**case0, "expressions": order, "target_cells": int(np.prod(tgt.shape))})
